@@ -447,11 +447,33 @@ def classify_valgrind(stderr):
 def valgrind_block(prop, tier, seed, part, start, count):
     binary = os.path.join(B.BUILD, "gzero", "simzone")
     cmd = VG + [binary, "worker", "--prop", prop, "--tier", tier, "--seed", str(seed), "--start", str(start), "--count", str(count)] + (["--part", part] if part else [])
-    try:
-        p = subprocess.run(cmd, capture_output=True, text=True, env=dict(_env(), VERIF_WATCHDOG_SCALE="60"), timeout=3000, errors="replace")
-    except subprocess.TimeoutExpired:
-        return None, "timeout"
-    return p.returncode, p.stderr
+    # memcheck replaces the allocator, so the harness's heap budget does not bind there: keep an eye on the
+    # resident size ourselves (a runaway once took 23 GB and the OOM killer with it) and give up on the block at 6 GB.
+    errf = tempfile.TemporaryFile(mode="w+", errors="replace")
+    p = subprocess.Popen(cmd, stdout=subprocess.DEVNULL, stderr=errf, env=dict(_env(), VERIF_WATCHDOG_SCALE="60"))
+    t0 = time.time()
+    verdict = None
+    while p.poll() is None:
+        time.sleep(0.25)
+        try:
+            with open("/proc/%d/status" % p.pid) as f:
+                rss = [int(l.split()[1]) for l in f if l.startswith("VmRSS:")]
+        except OSError:
+            rss = []
+        if rss and rss[0] > 6_000_000:
+            verdict = "rss above 6 GB"
+        elif time.time() - t0 > 3000:
+            verdict = "timeout"
+        if verdict:
+            p.kill()
+            p.wait()
+            break
+    errf.seek(0)
+    err = errf.read()
+    errf.close()
+    if verdict:
+        return None, verdict
+    return p.returncode, err
 
 
 def valgrind_case(case, timeout=600):
